@@ -222,6 +222,8 @@ class Types:
             elif isinstance(st, ast.AnnAssign) and isinstance(st.target, ast.Name) and st.target.id == name:
                 found = True
                 ts.append(self.ann(st.annotation, f.module, f.cls))
+                if st.value is not None:      # `x: Callable[..., Any] = self._m`: the value says more than the annotation
+                    ts.append(self.expr(st.value, scope))
             elif isinstance(st, ast.AugAssign) and isinstance(st.target, ast.Name) and st.target.id == name:
                 found = True
             elif isinstance(st, (ast.For, ast.AsyncFor, ast.comprehension)):
